@@ -90,4 +90,193 @@ theorem rd_success : ∀ (b : Buf) (v : Bool), (rd b v).res.isOk = true → (rd 
         simp only [hok, if_true]
         exact ih (by rw [← trOut_isOk]; exact validate_isOk _ hok) hce p hp
 
+theorem afterTask_eof (b : MOut) (t : Nat) (r : Option Nat) (h : (afterTask b t r).res ≠ .panic) :
+    (afterTask b t r).eof = b.eof := by
+  simp only [afterTask] at h ⊢
+  cases hb : b.res with
+  | panic => simp [hb, MOut.panic] at h
+  | err k => rfl
+  | ok d s => by_cases e : b.eof = true <;> simp [e] <;> cases r <;> rfl
+
+/-- a successful result that is not `ReadAt`'s "n bytes and io.EOF" -/
+theorem afterTask_ok (b : MOut) (t : Nat) (r : Option Nat) (hok : (afterTask b t r).res.isOk = true)
+    (he : b.eof = false) : b.res.isOk = true ∧ r = none ∧ (afterTask b t r).waited = b.waited ++ [t] := by
+  simp only [afterTask] at hok ⊢
+  cases hb : b.res with
+  | panic => simp [hb, MOut.panic, Out.isOk] at hok
+  | err k => simp [hb, Out.isOk] at hok
+  | ok d s =>
+    simp only [hb, he] at hok ⊢
+    cases r with
+    | some e => simp [Out.isOk] at hok
+    | none => simp [Out.isOk]
+
+theorem toByteSlice_eof : ∀ (b : Buf) (max : Nat), (toByteSlice b max).res ≠ .panic → (toByteSlice b max).eof = false
+  | .err _, _, _ => rfl
+  | .bytes d, max, _ => by simp only [toByteSlice]; split <;> rfl
+  | .readerAt d, max, _ => by simp only [toByteSlice]; split <;> rfl
+  | .stream _ sz _ _, max, _ => by simp only [toByteSlice]; split <;> rfl
+  | .cloned base dg sibs, max, _ => by
+    simp only [toByteSlice]
+    split
+    · rfl
+    · rfl
+    · split <;> rfl
+  | .task base dg t r, max, h => by
+    simp only [toByteSlice] at h ⊢
+    rw [afterTask_eof _ t r h]
+    exact toByteSlice_eof base max (afterTask_waited _ t r h).1
+  | .eh base dg, max, h => by
+    simp only [toByteSlice, trM] at h ⊢
+    exact toByteSlice_eof base max (fun e => h ((trOut_panic _).mpr e))
+
+theorem isOk_np (o : Out) (h : o.isOk = true) : o ≠ .panic := by cases o <;> simp_all [Out.isOk]
+
+theorem toByteSlice_success : ∀ (b : Buf) (max : Nat), (toByteSlice b max).res.isOk = true →
+    ∀ p ∈ taskResults b, p.1 ∈ (toByteSlice b max).waited ∧ p.2 = none
+  | .err _, _, _, p, hp => by simp [taskResults] at hp
+  | .bytes _, _, _, p, hp => by simp [taskResults] at hp
+  | .readerAt _, _, _, p, hp => by simp [taskResults] at hp
+  | .stream _ _ _ _, _, _, p, hp => by simp [taskResults] at hp
+  | .cloned base dg sibs, max, hok, p, hp => by
+    have hs := cr_success (.cloned base dg sibs) true
+    simp only [toByteSlice] at hok ⊢
+    generalize cr (.cloned base dg sibs) true = r at hok hs ⊢
+    cases r with | mk res wT wC cE =>
+    cases res with
+    | panic => simp [MOut.panic, Out.isOk] at hok
+    | err k =>
+      cases dg with
+      | none => simp [MOut.panic, Out.isOk] at hok
+      | some n => dsimp only at hok; split at hok <;> simp [ofSR, Out.isOk] at hok
+    | ok d s =>
+      cases dg with
+      | none => simp [MOut.panic, Out.isOk] at hok
+      | some n =>
+        dsimp only at hok ⊢
+        by_cases e : tooLarge n max = true
+        · simp [e, Out.isOk] at hok
+        · have := hs rfl p hp
+          have e' : tooLarge n max = false := by simpa using e
+          simp only [e', ofSR, Out.isOk, if_true, Bool.false_eq_true, if_false, List.mem_append]
+          exact ⟨Or.inl this.1, this.2⟩
+  | .task base dg t r, max, hok, p, hp => by
+    simp only [toByteSlice] at hok ⊢
+    have he := toByteSlice_eof base max (afterTask_waited _ t r (isOk_np _ hok)).1
+    obtain ⟨hb, hr, hw⟩ := afterTask_ok _ t r hok he
+    rw [hw]
+    simp only [taskResults, List.mem_append, List.mem_singleton] at hp ⊢
+    rcases hp with hp | hp
+    · have := toByteSlice_success base max hb p hp; exact ⟨Or.inl this.1, this.2⟩
+    · subst hp; exact ⟨Or.inr rfl, hr⟩
+  | .eh base dg, max, hok, p, hp => by
+    simp only [toByteSlice, trM] at hok ⊢
+    exact toByteSlice_success base max (by rw [← trOut_isOk]; exact hok) p hp
+
+theorem intoWriter_eof : ∀ (b : Buf), (intoWriter b).res ≠ .panic → (intoWriter b).eof = false
+  | .err _, _ => rfl
+  | .bytes _, _ => rfl
+  | .readerAt _, _ => rfl
+  | .stream _ _ _ _, _ => rfl
+  | .cloned _ _ _, _ => rfl
+  | .task base dg t r, h => by
+    simp only [intoWriter] at h ⊢
+    rw [afterTask_eof _ t r h]
+    exact intoWriter_eof base (afterTask_waited _ t r h).1
+  | .eh _ _, _ => rfl
+
+theorem ofSR_success (b : Buf) (r : SR) (hok : r.res.isOk = true)
+    (hs : ∀ p ∈ taskResults b, p.1 ∈ r.wTerm ∧ p.2 = none) :
+    ∀ p ∈ taskResults b, p.1 ∈ (ofSR r).waited ∧ p.2 = none := by
+  intro p hp
+  have := hs p hp
+  simp only [ofSR, hok, if_true, List.mem_append]
+  exact ⟨Or.inl this.1, this.2⟩
+
+theorem intoWriter_success : ∀ (b : Buf), (intoWriter b).res.isOk = true →
+    ∀ p ∈ taskResults b, p.1 ∈ (intoWriter b).waited ∧ p.2 = none
+  | .err _, _, p, hp => by simp [taskResults] at hp
+  | .bytes _, _, p, hp => by simp [taskResults] at hp
+  | .readerAt _, _, p, hp => by simp [taskResults] at hp
+  | .stream _ _ _ _, _, p, hp => by simp [taskResults] at hp
+  | .cloned base dg sibs, hok, p, hp => by
+    simp only [intoWriter] at hok ⊢
+    exact ofSR_success (.cloned base dg sibs) _ hok (cr_success _ true hok) p hp
+  | .task base dg t r, hok, p, hp => by
+    simp only [intoWriter] at hok ⊢
+    have he := intoWriter_eof base (afterTask_waited _ t r (isOk_np _ hok)).1
+    obtain ⟨hb, hr, hw⟩ := afterTask_ok _ t r hok he
+    rw [hw]
+    simp only [taskResults, List.mem_append, List.mem_singleton] at hp ⊢
+    rcases hp with hp | hp
+    · have := intoWriter_success base hb p hp; exact ⟨Or.inl this.1, this.2⟩
+    · subst hp; exact ⟨Or.inr rfl, hr⟩
+  | .eh base dg, hok, p, hp => by
+    simp only [intoWriter] at hok ⊢
+    exact ofSR_success (.eh base dg) _ hok (cr_success _ true hok) p hp
+
+theorem sliceOut_isOk (o : Out) (off len : Nat) (h : (sliceOut o off len).res.isOk = true) : o.isOk = true := by
+  cases o with
+  | ok d s => rfl
+  | err k => simp [sliceOut, Out.isOk] at h
+  | panic => simp [sliceOut, Out.isOk] at h
+
+theorem readAt_success : ∀ (b : Buf) (off len : Nat), (readAt b off len).res.isOk = true →
+    (readAt b off len).eof = false →
+    ∀ p ∈ taskResults b, p.1 ∈ (readAt b off len).waited ∧ p.2 = none
+  | .err _, _, _, _, _, p, hp => by simp [taskResults] at hp
+  | .bytes _, _, _, _, _, p, hp => by simp [taskResults] at hp
+  | .readerAt _, _, _, _, _, p, hp => by simp [taskResults] at hp
+  | .stream _ _ _ _, _, _, _, _, p, hp => by simp [taskResults] at hp
+  | .cloned base dg sibs, off, len, hok, _, p, hp => by
+    simp only [readAt] at hok ⊢
+    have hr := sliceOut_isOk _ off len hok
+    have := cr_success (.cloned base dg sibs) true hr p hp
+    simp only [hr, if_true, List.mem_append]
+    exact ⟨Or.inl this.1, this.2⟩
+  | .task base dg t r, off, len, hok, he, p, hp => by
+    simp only [readAt] at hok he ⊢
+    have hnp := isOk_np _ hok
+    rw [afterTask_eof _ t r hnp] at he
+    obtain ⟨hb, hr, hw⟩ := afterTask_ok _ t r hok he
+    rw [hw]
+    simp only [taskResults, List.mem_append, List.mem_singleton] at hp ⊢
+    rcases hp with hp | hp
+    · have := readAt_success base off len hb he p hp; exact ⟨Or.inl this.1, this.2⟩
+    · subst hp; exact ⟨Or.inr rfl, hr⟩
+  | .eh base dg, off, len, hok, he, p, hp => by
+    simp only [readAt, trM] at hok he ⊢
+    exact readAt_success base off len (by rw [← trOut_isOk]; exact hok) he p hp
+
+theorem toChunkReader_success (b : Buf) (off : Nat) (hok : (toChunkReader b off true).res.isOk = true) :
+    ∀ p ∈ taskResults b, p.1 ∈ (toChunkReader b off true).wTerm ∧ p.1 ∈ (toChunkReader b off true).waited ∧ p.2 = none := by
+  intro p hp
+  have hs := cr_success b true
+  simp only [toChunkReader] at hok ⊢
+  generalize cr b true = r at hok hs ⊢
+  cases r with | mk res wT wC cE =>
+  cases res with
+  | panic => simp [MOut.panic, Out.isOk] at hok
+  | err k => simp [ofSR, dropOut, Out.isOk] at hok
+  | ok d s =>
+    have := hs rfl p hp
+    simp only [ofSR, Out.isOk, if_true, List.mem_append]
+    exact ⟨this.1, Or.inl this.1, this.2⟩
+
+theorem toReader_success (b : Buf) (hok : (toReader b true).res.isOk = true)
+    (hce : (toReader b true).closeErr = none) :
+    ∀ p ∈ taskResults b, p.1 ∈ (toReader b true).waited ∧ p.2 = none := by
+  intro p hp
+  have hs := rd_success b true
+  simp only [toReader] at hok hce ⊢
+  generalize rd b true = r at hok hce hs ⊢
+  cases r with | mk res wT wC cE =>
+  cases res with
+  | panic => simp [MOut.panic, Out.isOk] at hok
+  | err k => simp [ofSR, Out.isOk] at hok
+  | ok d s =>
+    have := hs rfl (by simpa [ofSR] using hce) p hp
+    simp only [ofSR, Out.isOk, if_true, List.mem_append]
+    exact ⟨this.1, this.2⟩
+
 end BB.Mux
